@@ -78,6 +78,17 @@ pub enum V {
     Map(Vec<(K, V)>, bool),
     Struct(Vec<(u8, V)>),
     StructVariant(u8, Vec<(u8, V)>),
+    /// `Serializer::collect_str` of a value whose `Display` writes these pieces one by one.
+    CollectStr(Vec<String>),
+    /// `Serializer::collect_seq` over an iterator with (true) or without an exact size hint.
+    CollectSeq(Vec<V>, bool),
+    /// `Serializer::collect_map`.
+    CollectMap(Vec<(K, V)>),
+    /// The answer of `Serializer::is_human_readable`, as a bool (serde_json: true).
+    HumanReadable,
+    /// A std network address (kind, address bits, port): these types choose their representation
+    /// through `is_human_readable` and write it with `collect_str` / a formatted string.
+    Net(u8, u128, u16),
 }
 
 /// Map keys. The first group must be accepted, the second refused.
@@ -97,6 +108,10 @@ pub enum K {
     U128(u128),
     UnitVariant(u8),
     Newtype(Box<K>),
+    /// A key written with `collect_str` (a string, hence allowed).
+    CollectStr(Vec<String>),
+    /// A std network address as key (written as a string by a human-readable serializer).
+    Net(u8, u128, u16),
     // refused kinds
     Bool(bool),
     F32(u32),
@@ -128,7 +143,7 @@ impl K {
     pub fn allowed(&self) -> bool {
         match self {
             K::Str(_) | K::Char(_) | K::I8(_) | K::I16(_) | K::I32(_) | K::I64(_) | K::I128(_)
-            | K::U8(_) | K::U16(_) | K::U32(_) | K::U64(_) | K::U128(_) | K::UnitVariant(_) => true,
+            | K::U8(_) | K::U16(_) | K::U32(_) | K::U64(_) | K::U128(_) | K::UnitVariant(_) | K::CollectStr(_) | K::Net(..) => true,
             K::Newtype(k) => k.allowed(),
             _ => false,
         }
@@ -139,10 +154,10 @@ impl V {
     pub fn has_refused_key(&self) -> bool {
         match self {
             V::Some(v) | V::NewtypeStruct(v) | V::NewtypeVariant(_, v) => v.has_refused_key(),
-            V::Seq(vs, _) | V::Tuple(vs) | V::TupleStruct(vs) | V::TupleVariant(_, vs) => {
+            V::Seq(vs, _) | V::Tuple(vs) | V::TupleStruct(vs) | V::TupleVariant(_, vs) | V::CollectSeq(vs, _) => {
                 vs.iter().any(V::has_refused_key)
             }
-            V::Map(kvs, _) => kvs.iter().any(|(k, v)| !k.allowed() || v.has_refused_key()),
+            V::Map(kvs, _) | V::CollectMap(kvs) => kvs.iter().any(|(k, v)| !k.allowed() || v.has_refused_key()),
             V::Struct(fs) | V::StructVariant(_, fs) => fs.iter().any(|(_, v)| v.has_refused_key()),
             _ => false,
         }
@@ -150,10 +165,10 @@ impl V {
     pub fn depth(&self) -> usize {
         match self {
             V::Some(v) | V::NewtypeStruct(v) | V::NewtypeVariant(_, v) => 1 + v.depth(),
-            V::Seq(vs, _) | V::Tuple(vs) | V::TupleStruct(vs) | V::TupleVariant(_, vs) => {
+            V::Seq(vs, _) | V::Tuple(vs) | V::TupleStruct(vs) | V::TupleVariant(_, vs) | V::CollectSeq(vs, _) => {
                 1 + vs.iter().map(V::depth).max().unwrap_or(0)
             }
-            V::Map(kvs, _) => 1 + kvs.iter().map(|(_, v)| v.depth()).max().unwrap_or(0),
+            V::Map(kvs, _) | V::CollectMap(kvs) => 1 + kvs.iter().map(|(_, v)| v.depth()).max().unwrap_or(0),
             V::Struct(fs) | V::StructVariant(_, fs) => {
                 1 + fs.iter().map(|(_, v)| v.depth()).max().unwrap_or(0)
             }
@@ -162,9 +177,9 @@ impl V {
     }
     pub fn has_map_or_variant(&self) -> bool {
         match self {
-            V::Map(..) | V::NewtypeVariant(..) | V::TupleVariant(..) | V::StructVariant(..) => true,
+            V::Map(..) | V::CollectMap(..) | V::NewtypeVariant(..) | V::TupleVariant(..) | V::StructVariant(..) => true,
             V::Some(v) | V::NewtypeStruct(v) => v.has_map_or_variant(),
-            V::Seq(vs, _) | V::Tuple(vs) | V::TupleStruct(vs) => vs.iter().any(V::has_map_or_variant),
+            V::Seq(vs, _) | V::Tuple(vs) | V::TupleStruct(vs) | V::CollectSeq(vs, _) => vs.iter().any(V::has_map_or_variant),
             V::Struct(fs) => fs.iter().any(|(_, v)| v.has_map_or_variant()),
             _ => false,
         }
@@ -173,6 +188,34 @@ impl V {
 
 fn name(i: u8) -> &'static str {
     NAMES[i as usize % NAMES.len()]
+}
+
+/// `Display` that hands its pieces to the formatter one `write_str` at a time.
+pub struct Pieces<'a>(pub &'a [String]);
+impl std::fmt::Display for Pieces<'_> {
+    fn fmt(&self, f: &mut std::fmt::Formatter<'_>) -> std::fmt::Result {
+        for p in self.0 {
+            f.write_str(p)?;
+        }
+        Ok(())
+    }
+}
+
+/// Serialize the std network address selected by (kind, bits, port).
+fn serialize_net<S: Serializer>(kind: u8, bits: u128, port: u16, s: S) -> Result<S::Ok, S::Error> {
+    use std::net::{IpAddr, Ipv4Addr, Ipv6Addr, SocketAddr, SocketAddrV4, SocketAddrV6};
+    let v4 = Ipv4Addr::from(bits as u32);
+    let v6 = Ipv6Addr::from(bits);
+    match kind % 8 {
+        0 => v4.serialize(s),
+        1 => v6.serialize(s),
+        2 => IpAddr::V4(v4).serialize(s),
+        3 => IpAddr::V6(v6).serialize(s),
+        4 => SocketAddr::V4(SocketAddrV4::new(v4, port)).serialize(s),
+        5 => SocketAddr::V6(SocketAddrV6::new(v6, port, 0, 0)).serialize(s),
+        6 => SocketAddrV4::new(v4, port).serialize(s),
+        _ => SocketAddrV6::new(v6, port, 0, 0).serialize(s),
+    }
 }
 
 /// Hand-written: calls exactly the `Serializer` method that corresponds to the variant.
@@ -259,6 +302,21 @@ impl Serialize for SV<'_> {
                 }
                 m.end()
             }
+            V::CollectStr(p) => s.collect_str(&Pieces(p)),
+            V::CollectSeq(vs, exact) => {
+                if *exact {
+                    s.collect_seq(vs.iter().map(SV))
+                } else {
+                    // `filter` loses the exact size hint
+                    s.collect_seq(vs.iter().filter(|_| true).map(SV))
+                }
+            }
+            V::CollectMap(kvs) => s.collect_map(kvs.iter().map(|(k, v)| (SK(k), SV(v)))),
+            V::HumanReadable => {
+                let h = s.is_human_readable();
+                s.serialize_bool(h)
+            }
+            V::Net(kind, bits, port) => serialize_net(*kind, *bits, *port, s),
         }
     }
 }
@@ -280,6 +338,8 @@ impl Serialize for SK<'_> {
             K::U128(x) => s.serialize_u128(*x),
             K::UnitVariant(i) => s.serialize_unit_variant("E", *i as u32, name(*i)),
             K::Newtype(k) => s.serialize_newtype_struct("N", &SK(k)),
+            K::CollectStr(p) => s.collect_str(&Pieces(p)),
+            K::Net(kind, bits, port) => serialize_net(*kind, *bits, *port, s),
             K::Bool(b) => s.serialize_bool(*b),
             K::F32(b) => s.serialize_f32(f32::from_bits(*b)),
             K::F64(b) => s.serialize_f64(f64::from_bits(*b)),
@@ -435,6 +495,8 @@ fn key_strategy(refused_weight: u32) -> impl Strategy<Value = K> {
         1 => any::<u64>().prop_map(K::U64),
         1 => any::<u128>().prop_map(K::U128),
         2 => any::<u8>().prop_map(K::UnitVariant),
+        1 => pieces_strategy().prop_map(K::CollectStr),
+        1 => (any::<u8>(), net_bits(), any::<u16>()).prop_map(|(k, b, p)| K::Net(k, b, p)),
     ];
     let allowed = allowed.clone().prop_flat_map(|k| {
         prop_oneof![5 => Just(k.clone()), 1 => Just(K::Newtype(Box::new(k)))]
@@ -465,8 +527,28 @@ fn key_strategy(refused_weight: u32) -> impl Strategy<Value = K> {
     ]
 }
 
+/// Pieces of a `Display` output: short / long (longer than typical free space) / escape-relevant.
+fn pieces_strategy() -> impl Strategy<Value = Vec<String>> {
+    let piece = prop_oneof![
+        3 => string_strategy(),
+        2 => (1usize..320, prop::sample::select(vec!['s', '"', '\u{e9}', '\n'])).prop_map(|(n, c)| std::iter::repeat(c).take(n).collect::<String>()),
+        1 => Just(String::new()),
+    ];
+    prop::collection::vec(piece, 0..5)
+}
+
+fn net_bits() -> impl Strategy<Value = u128> {
+    prop_oneof![
+        3 => any::<u128>(),
+        1 => prop::sample::select(vec![0u128, 1, 0x7f00_0001, 0xffff_ffff, 0xffff_7f00_0001, u128::MAX, 0xfe80 << 112, 0x2001_0db8 << 96]),
+    ]
+}
+
 fn leaf_strategy() -> impl Strategy<Value = V> {
     prop_oneof![
+        pieces_strategy().prop_map(V::CollectStr),
+        Just(V::HumanReadable),
+        (any::<u8>(), net_bits(), any::<u16>()).prop_map(|(k, b, p)| V::Net(k, b, p)),
         any::<bool>().prop_map(V::Bool),
         any::<i8>().prop_map(V::I8),
         any::<i16>().prop_map(V::I16),
@@ -498,6 +580,8 @@ pub fn tree_strategy(refused_weight: u32) -> impl Strategy<Value = V> {
             1 => inner.clone().prop_map(|v| V::NewtypeStruct(Box::new(v))),
             2 => (any::<u8>(), inner.clone()).prop_map(|(i, v)| V::NewtypeVariant(i, Box::new(v))),
             2 => (prop::collection::vec(inner.clone(), 0..5), any::<bool>()).prop_map(|(v, h)| V::Seq(v, h)),
+            1 => (prop::collection::vec(inner.clone(), 0..5), any::<bool>()).prop_map(|(v, h)| V::CollectSeq(v, h)),
+            1 => prop::collection::vec((key_strategy(refused_weight), inner.clone()), 0..4).prop_map(V::CollectMap),
             1 => prop::collection::vec(inner.clone(), 0..4).prop_map(V::Tuple),
             1 => prop::collection::vec(inner.clone(), 0..4).prop_map(V::TupleStruct),
             2 => (any::<u8>(), prop::collection::vec(inner.clone(), 0..4)).prop_map(|(i, v)| V::TupleVariant(i, v)),
